@@ -6,7 +6,7 @@ from ..refs import regex as RX
 from .. import observe as O
 from .c01 import W2
 
-SYMSETS = {"ab": ["a", "b"], "tok": ["ab", "c1"]}
+SYMSETS = {"ab": ["a", "b"], "tok": ["ab", "c1"], "op": ["$", "+"]}     # op: whole symbols spelt like regex operators
 
 
 class C06(Prop):
@@ -27,7 +27,9 @@ class C06(Prop):
                     Layer("FA(3,2,<=2)/names:reserved", lambda: G.fa_cases(3, 2, 0, 2), rep=None,
                           policies=["natural@reserved2/ab", "1@reserved2/ab"]),
                     Layer("trim FA(4,2,5), start 0, final 3 (every 16th)", lambda: G.trim4_cases(5, 16),
-                          policies=["natural@int/ab", "1@int/ab", "2@str/ab"])]
+                          policies=["natural@int/ab", "1@int/ab", "2@str/ab"]),
+                    Layer("FA(3,2,<=2)/symbols spelt like operators", lambda: G.fa_cases(3, 2, 0, 2), rep=G.is_rep,
+                          policies=["natural@int/op", "1@str/op"])]
         few = ["natural@int/ab", "1@str/tok", "2@int/ab", "s%d@str/ab" % seed]
         return [Layer("FA(2,2,<=12)", lambda: G.fa_cases(2, 2, 0, 12), rep=G.is_rep_states),
                 Layer("FA(3,2,<=3)", lambda: G.fa_cases(3, 2, 0, 3), rep=G.is_rep_states),
@@ -38,7 +40,9 @@ class C06(Prop):
                 Layer("trim FA(4,2,5), start 0, final 3", lambda: G.trim4_cases(5, 1), policies=["natural@int/ab", "1@int/ab"]),
                 Layer("trim FA(4,2,4), start 0, final 3", lambda: G.trim4_cases(4, 1), policies=few[:3]),
                 Layer("FA(3,2,<=3)/names:reserved", lambda: G.fa_cases(3, 2, 0, 3), rep=None,
-                      policies=["natural@reserved2/ab", "1@reserved2/ab"])]
+                      policies=["natural@reserved2/ab", "1@reserved2/ab"]),
+                Layer("FA(3,2,<=3)/symbols spelt like operators", lambda: G.fa_cases(3, 2, 0, 3), rep=G.is_rep,
+                      policies=["natural@int/op", "1@str/op", "2@int/op"])]
 
     def default_policies(self, tier, seed):
         if tier == "quick":
